@@ -47,7 +47,8 @@ def generate(rng, tier):
     for i in range(nroots):
         t = gen_tree.gen_crate(rng, base="c%d" % i, max_files=rng.choice([1, 3, 6]), suffix=str(i),
                                root_name=rng.choice(["main%d.rs", "lib%d.rs", "src/main%d.rs", "src/lib%d.rs"]) % i,
-                               feats={"modrs", "path", "inline"} if rng.chance(60) else {"modrs"})
+                               feats=rng.choice([{"modrs", "path", "inline"}, {"modrs", "path", "inline"}, {"modrs"},
+                                                 {"modrs", "path", "cfg_attr_path"}, {"modrs", "cfg_if", "cfg_attr_path", "inline"}]))
         trees.append(t.to_json())
         files.update(t.files)
     order = rng.shuffle(list(range(nroots)))
@@ -96,6 +97,12 @@ def apply_fault(case, world, vi, pos):
     files = world["files"]
     is_root = pos == t["root"]
     plan, extra, env, rootarg = [], [], {}, None
+    # a declaration with cfg_attr(path) alternates: a missing / ambiguous candidate is tolerated by design (the
+    # other candidates are used), so only faults *inside* a candidate apply
+    names = [d[1] for d in t.get("decls", []) if d[2] == pos]
+    multi = any(sum(1 for d in t.get("decls", []) if d[1] == n) > 1 for n in names)
+    if multi and kind in ("missing", "ambiguous", "dirforfile"):
+        return None
     txt = core.file_bytes(files[pos]).decode("utf-8", "replace") if pos in files else ""
     if kind == "unclosed":
         files[pos] = txt + "fn broken( {\n"
@@ -115,7 +122,7 @@ def apply_fault(case, world, vi, pos):
             return None
         del files[pos]
     elif kind == "ambiguous":
-        if is_root or os.path.basename(pos).startswith("p_"):
+        if is_root or os.path.basename(pos).startswith(("p_", "alt_")):
             return None
         if os.path.basename(pos) == "mod.rs":
             other = os.path.dirname(pos) + ".rs"
